@@ -42,6 +42,11 @@ def handleReq (schemas : List (String × Schema)) (op : String) (args : List Str
     match Lean.Json.parse vj >>= parseVal with
     | .ok v => some (showR id (toJson S transform ty v))
     | .error e => some ("bad-value " ++ e)
+  | "str", [sid, ty, vj] =>
+    let S ← (schemas.find? (·.1 == sid)).map (·.2)
+    match Lean.Json.parse vj >>= parseVal with
+    | .ok v => some (showR Driver.strOut (toStr S transform ty v))
+    | .error e => some ("bad-value " ++ e)
   | "layout", [sid, ty, vj] =>
     let S ← (schemas.find? (·.1 == sid)).map (·.2)
     match Lean.Json.parse vj >>= parseVal with
